@@ -89,9 +89,13 @@ class _Gen:
         elif isinstance(t, pydsdl.VariableLengthArrayType):
             i, c = self.var("i"), self.var("cnt")
             et = t.element_type
-            L.append(f"{ind}const size_t {c} = (size_t) tok_u64(t);")
+            fl = self.var("fl")
+            L.append(f"{ind}uint64_t {fl} = 0U;")
+            L.append(f"{ind}const size_t {c}_set = (size_t) tok_count(t, &{fl});")
+            L.append(f"{ind}const size_t {c} = (size_t) {fl};")
             if self.cpp:
                 e = self.var("e")
+                L.append(f"{ind}(void) {c}_set;")
                 L.append(f"{ind}{lv}.clear();")
                 L.append(f"{ind}for (size_t {i} = 0; {i} < {c}; {i}++) {{")
                 L.append(f"{ind}    typename std::remove_reference<decltype({lv})>::type::value_type {e}{{}};")
@@ -99,7 +103,7 @@ class _Gen:
                 L.append(f"{ind}    {lv}.push_back({e});")
                 L.append(f"{ind}}}")
             else:
-                L.append(f"{ind}{lv}.count = {c};")
+                L.append(f"{ind}{lv}.count = {c}_set;")
                 if isinstance(et, pydsdl.BooleanType):
                     L.append(f"{ind}memset({lv}.bitpacked, 0, sizeof({lv}.bitpacked));")
                     L.append(f"{ind}for (size_t {i} = 0; {i} < {c}; {i}++) {{ const bool b_ = (tok_u64(t) != 0U); if (b_ && ({i} < {t.capacity}U)) {{ {lv}.bitpacked[{i} / 8U] = (uint8_t) ({lv}.bitpacked[{i} / 8U] | (1U << ({i} % 8U))); }} }}")
@@ -107,7 +111,7 @@ class _Gen:
                     tmp = self.var("tmp")
                     et_c = _cprim(et) if isinstance(et, pydsdl.PrimitiveType) else c_name(et)
                     L.append(f"{ind}for (size_t {i} = 0; {i} < {c}; {i}++) {{")
-                    L.append(f"{ind}    if ({i} < {t.capacity}U) {{")
+                    L.append(f"{ind}    if ({i} < (sizeof({lv}.elements) / sizeof({lv}.elements[0]))) {{")
                     L += self.build(et, f"{lv}.elements[{i}]", ind + "        ")
                     L.append(f"{ind}    }} else {{")
                     L.append(f"{ind}        {et_c} {tmp};")
@@ -151,7 +155,8 @@ class _Gen:
                 L.append(f"{ind}}}")
             else:
                 L.append(f"{ind}out_u64(out, {rv}.count);")
-                L.append(f"{ind}for (size_t {i} = 0; ({i} < {rv}.count) && ({i} < {t.capacity}U); {i}++) {{")
+                bound = f"{t.capacity}U" if isinstance(et, pydsdl.BooleanType) else f"(sizeof({rv}.elements) / sizeof({rv}.elements[0]))"
+                L.append(f"{ind}for (size_t {i} = 0; ({i} < {rv}.count) && ({i} < {bound}); {i}++) {{")
                 if isinstance(et, pydsdl.BooleanType):
                     L.append(f"{ind}    out_u64(out, ({rv}.bitpacked[{i} / 8U] >> ({i} % 8U)) & 1U);")
                 else:
